@@ -5,6 +5,7 @@
   (`Gen.CodecPanics` lists what the translator finds in the source; obligation `no_panic_sites`).
 -/
 import SlicecVerif.Lemmas.Decode
+import SlicecVerif.Lemmas.DecodeFrame
 import SlicecVerif.Model.Reply
 import SlicecVerif.Gen.CodecPanics
 
@@ -105,7 +106,28 @@ theorem skip_fuel_sufficient (fuel : Nat) (bs : Bytes) (h : bs.length < fuel) :
     every error value can be rendered and no decoding path can reach a panic macro. -/
 theorem no_panic_sites : Gen.codecPanicSites = [] := rfl
 
+/-- Framing — "no over-read" in the strong sense. A successful decode depends only on the bytes it
+    consumed: with ANY bytes appended behind the input, the same value is decoded and exactly the appended
+    bytes are additionally left unread. So the decoder not only stays inside the buffer
+    (`decode_consumes_prefix`), it does not even look at the unread part of it — what follows a value in a
+    buffer (the next field, another message, attacker-chosen padding) cannot influence how the value is
+    read. For every type incl. nested sequences and dictionaries, every input. -/
+theorem decode_framed (t : Ty) (bs : Bytes) (v : Val t) (rest ex : Bytes)
+    (h : decode t bs = .ok (v, rest)) : decode t (bs ++ ex) = .ok (v, rest ++ ex) :=
+  Slicec.decode_framed t bs v rest ex h
+
+/-- consequence: two values written one behind the other are read back one after the other — decoding
+    the first from the concatenation leaves exactly the input of the second. -/
+theorem decode_sequential (t u : Ty) (a b : Bytes) (x : Val t) (y : Val u) (rest : Bytes)
+    (ha : decode t a = .ok (x, [])) (hb : decode u b = .ok (y, rest)) :
+    decode t (a ++ b) = .ok (x, b) ∧ decode u b = .ok (y, rest) := by
+  have := decode_framed t a x [] b ha
+  simp only [List.nil_append] at this
+  exact ⟨this, hb⟩
+
 /-! non-vacuity -/
+example : decode (.seq (.uint .w1)) [8, 7, 9] = .ok (([7, 9] : List Int), []) := by rfl
+example : decode (.seq (.uint .w1)) ([8, 7, 9] ++ [0xff, 0xff]) = .ok (([7, 9] : List Int), [0xff, 0xff]) := by rfl
 example : decode (.dictH (.uint .w1) .bool) [8, 1, 1, 1, 0] = .error .dupKey := by rfl
 example : decode .bool [2] = .error (.illegalBool 2) := by rfl
 example : decode (.seq (.uint .w8)) [0x02, 0x00, 0x00, 0x40] = .error (.eob 8 0) := by rfl
@@ -126,3 +148,5 @@ end Slicec.C11
 #print axioms Slicec.C11.string_reservation_bounded
 #print axioms Slicec.C11.skip_fuel_sufficient
 #print axioms Slicec.C11.no_panic_sites
+#print axioms Slicec.C11.decode_framed
+#print axioms Slicec.C11.decode_sequential
